@@ -197,11 +197,14 @@ def run_hollow_plugin(case, rec):
         Vf = sum(w_*c43*(R + t_)**3 for t_, w_ in pts)/W
         Vs = sum(w_*c43*((R + t_)**3 - R**3) for t_, w_ in pts)/W
         vf = sp["volfraction"]
-        Sq = np.asarray(direct_model.call_kernel(Sm.make_kernel(q), dict(sp, scale=1.0, background=0.0, volfraction=vf*Vf/Vs)), float)
-        exp = scale*vf/Vs*F2*Sq + bg
         kern = model.make_kernel(q)
         I = np.asarray(direct_model.call_kernel(kern, dict(cp)), float)
         res = kern.results()
+        # S is evaluated at the volume fraction the kernel reports (compared with the closed form below to 1e-9): some
+        # structure factors (hayter_msa at high volume fraction) amplify a last-bit difference of their input to 1e-5
+        Sq = np.asarray(direct_model.call_kernel(Sm.make_kernel(q), dict(sp, scale=1.0, background=0.0,
+                                                                         volfraction=vf*float(res["volume_ratio"]))), float)
+        exp = scale*vf/Vs*F2*Sq + bg
         ok = core.close(I, exp, 1e-9, 1e-12*float(np.max(np.abs(exp))))
         ctx = {"P": "hollow sphere plugin (%s)" % kind, "S": S, "pars": cp, "q": q[0]}
         rec.check("equals_documented_combination", ok, None if ok else dict(ctx, observed=I, expected=exp, V_form=Vf, V_shell=Vs))
